@@ -156,6 +156,10 @@ class EFLRItem:
         if isinstance(getattr(self, key, None), Attribute):
             raise RuntimeError(f"Cannot set DLIS Attribute '{key}'. Did you mean setting '{key}.value' instead?")
 
+        if key in ('name', '_origin_reference', '_copy_number'):
+            # these make up the OBNAME of the item; do not keep a cached version made from the previous values
+            self.__dict__.pop('obname', None)
+
         return super().__setattr__(key, value)
 
     @cached_property
